@@ -207,15 +207,36 @@ def extreme_clt_stream(ctx):
         rs = np.random.RandomState(np_seed(ctx.sub_rng('extreme', k)))
         wide = (k % 2 == 0)
         n = int(rs.choice([130, 160, 220])) if wide else int(rs.randint(4, 8))
-        clt, pred = CL.make_wide_clt(rs, n, peaked=not wide)
+        hub = (k % 5 == 4)
+        if hub:
+            # a hub: one variable (not the root) with 30..60 children that copy it up to a few percent of noise; with the hub missing and
+            # the children agreeing, the two messages of the hub differ by more than a hundred nats — in EITHER direction
+            n = int(rs.choice([32, 45, 62]))
+            pred = [-1, 0] + [1] * (n - 2)
+            eps_ = rs.uniform(0.02, 0.05, size=n)
+            params = np.zeros((n, 2, 2))
+            params[:, 0, 1] = eps_; params[:, 0, 0] = 1 - eps_
+            params[:, 1, 1] = 1 - eps_; params[:, 1, 0] = eps_
+            params[0, :, 1] = 0.5; params[0, :, 0] = 0.5
+            from deeprob.spn.structure.cltree import BinaryCLT as _CLT
+            clt = _CLT(list(range(n)), root=0, tree=pred, params=np.log(params).tolist())
+        else:
+            clt, pred = CL.make_wide_clt(rs, n, peaked=not wide)
         clt.id = 0
         full = rs.randint(2, size=(6, n)).astype(np.float32)
+        if hub:
+            full[0::2, 2:] = 1.0; full[1::2, 2:] = 0.0
         X = full.copy()
         X[0, :] = np.nan                                   # nothing observed
         X[1, :] = np.nan; X[1, int(rs.randint(n))] = 1     # one variable observed
         X[2, int(rs.randint(n))] = np.nan                  # all but one observed
         X[3, rs.rand(n) < 0.5] = np.nan
         X[4, rs.rand(n) < 0.05] = np.nan
+        if hub:
+            X = full.copy()
+            X[:, 1] = np.nan                               # the hub is missing in every row; its children all read 1 (even rows) / 0 (odd rows)
+            X[2:4, 0] = np.nan
+            X[4, 5:9] = np.nan
         # X[5] complete
         as_leaf = (k % 4 >= 2)
         if as_leaf:
@@ -224,7 +245,7 @@ def extreme_clt_stream(ctx):
         else:
             root, XX = clt, X
         lp = np.asarray(clt.params, dtype=np.float64)
-        tag = ('wide' if wide else 'peaked') + ('-as-leaf' if as_leaf else '-alone')
+        tag = ('hub' if hub else 'wide' if wide else 'peaked') + ('-as-leaf' if as_leaf else '-alone')
         ctx.case('extreme-clt', nontrivial_key=('extreme', k), sample=dict(stream='extreme-clt', kind=tag, variables=n) if k < 4 else None)
         ctx.count('extreme-clt:' + tag)
         rep = dict(kind='c02-extreme', pred=pred, params=lp.tolist(), rows=np.where(np.isnan(X), None, X).tolist(), as_leaf=as_leaf)
